@@ -2,7 +2,7 @@
    non-trivial inputs, and the rely condition is really needed. *)
 From Coq Require Import List ZArith Bool Arith Lia.
 Import ListNotations.
-From TV Require Import Lib.Obs C41.Model C41.Spec C41.Run C41.Proofs1 C41.Proofs2 C41.Proofs3 C41.Proofs4.
+From TV Require Import Lib.Obs C41.Model C41.Spec C41.Run C41.Proofs1 C41.Proofs2 C41.Proofs3 C41.Proofs4 C41.Proofs5.
 Local Open Scope Z_scope.
 
 (* the scenario of tornado/test/process_test.py: 3 workers, worker 1 killed by SIGKILL,
@@ -14,7 +14,7 @@ Example ex_fresh : NoDup (nz ex_forks).
 Proof. vm_compute. repeat constructor; simpl; intuition discriminate. Qed.
 
 Example ex_exit :
-  fork_processes None (Some 3) 8%nat None ex_forks ex_waits =
+  fork_processes (0,0)%nat None (Some 3) 8%nat None ex_forks ex_waits =
   {| r_trace := [EStart 3; EFork 0 101; EFork 1 102; EFork 2 103;
                  EWait 102 9; ELog 1 102 (LSignal 9); EFork 1 104;
                  EWait 101 0; ELog 0 101 LNormal; EWait 103 0; ELog 2 103 LNormal;
@@ -23,28 +23,28 @@ Example ex_exit :
 Proof. vm_compute. reflexivity. Qed.
 
 Example ex_exit_accepted :
-  spec_check None (Some 3) 8%nat None (fork_processes None (Some 3) 8%nat None ex_forks ex_waits) = Accept.
+  spec_check (0,0)%nat None (Some 3) 8%nat None (fork_processes (0,0)%nat None (Some 3) 8%nat None ex_forks ex_waits) = Accept.
 Proof. vm_compute. reflexivity. Qed.
 
 Example ex_lifecycle_worker1 :
-  life SNot (proj 1 (r_trace (fork_processes None (Some 3) 8%nat None ex_forks ex_waits))) = Some SFin.
+  life SNot (proj 1 (r_trace (fork_processes (0,0)%nat None (Some 3) 8%nat None ex_forks ex_waits))) = Some SFin.
 Proof. vm_compute. reflexivity. Qed.
 
 (* budget 1, two abnormal exits: RuntimeError at the second one *)
 Example ex_toomany :
-  r_out (fork_processes None (Some 2) 8%nat (Some 1) [10; 11; 12; 13]
+  r_out (fork_processes (0,0)%nat None (Some 2) 8%nat (Some 1) [10; 11; 12; 13]
                         [(99, 0); (10, 256); (11, 0); (12, 9); (5, 5)]) = OTooMany.
 Proof. vm_compute. reflexivity. Qed.
 
 (* fork returns 0 while restarting worker 1: that process returns 1 and has task id 1 *)
 Example ex_child :
-  let r := fork_processes None (Some 2) 8%nat (Some 2) [10; 11; 0] [(11, 15)] in
+  let r := fork_processes (0,0)%nat None (Some 2) 8%nat (Some 2) [10; 11; 0] [(11, 15)] in
   r_out r = OChild 1 1 /\ r_task r = Some 1%nat.
 Proof. vm_compute. split; reflexivity. Qed.
 
 (* called again inside a worker: assertion, nothing forked *)
 Example ex_nested :
-  fork_processes (Some 1%nat) (Some 2) 8%nat None [10; 11] [] =
+  fork_processes (0,0)%nat (Some 1%nat) (Some 2) 8%nat None [10; 11] [] =
   {| r_trace := []; r_out := OAssert; r_task := Some 1%nat |}.
 Proof. reflexivity. Qed.
 
@@ -52,20 +52,48 @@ Proof. reflexivity. Qed.
    dict entry is overwritten, worker 0 is forgotten and the supervisor exits 0 although
    worker 0 never exited.  The acceptor classifies this trace EnvBroken. *)
 Example ex_collision :
-  let r := fork_processes None (Some 2) 8%nat None [10; 10] [(10, 0)] in
+  let r := fork_processes (0,0)%nat None (Some 2) 8%nat None [10; 10] [(10, 0)] in
   r_out r = OExit 0 /\
   proj 0 (r_trace r) = [EFork 0 10] /\
-  spec_check None (Some 2) 8%nat None r = EnvBroken.
+  spec_check (0,0)%nat None (Some 2) 8%nat None r = EnvBroken.
 Proof. vm_compute. repeat split; reflexivity. Qed.
 
 (* a pid may be reused once its previous owner was reaped: still accepted *)
 Example ex_pid_reuse :
-  spec_check None (Some 1) 8%nat (Some 3)
-    (fork_processes None (Some 1) 8%nat (Some 3) [10; 10; 10] [(10, 9); (10, 256); (10, 0)]) = Accept.
+  spec_check (0,0)%nat None (Some 1) 8%nat (Some 3)
+    (fork_processes (0,0)%nat None (Some 1) 8%nat (Some 3) [10; 10; 10] [(10, 9); (10, 256); (10, 0)]) = Accept.
 Proof. vm_compute. reflexivity. Qed.
 
 (* status shapes *)
 Example ex_status_core : abnormal 139 = true /\ expected_log 139 = LSignal 11.   (* SIGSEGV + core *)
 Proof. vm_compute. split; reflexivity. Qed.
 Example ex_status_exit3 : abnormal 768 = true /\ expected_log 768 = LStatus 3.
+Proof. vm_compute. split; reflexivity. Qed.
+
+(* os.wait() raising ChildProcessError (kind 1) while worker 0 is still running: it comes out unchanged,
+   after the single scripted wait result was consumed *)
+Example ex_wait_echild :
+  let r := fork_processes (2,1)%nat None (Some 1) 8%nat None [10] [(77, 9)] in
+  r_trace r = [EStart 1; EFork 0 10; EWait 77 9] /\ r_out r = OWaitErr 1 /\
+  spec_check (2,1)%nat None (Some 1) 8%nat None r = Accept.
+Proof. vm_compute. repeat split; reflexivity. Qed.
+
+(* os.fork() raising (kind 2) at a restart: worker 0 is left crashed, the call fails with that exception *)
+Example ex_fork_fails_at_restart :
+  let r := fork_processes (2,1)%nat None (Some 1) 8%nat None [10] [(10, 9)] in
+  r_out r = OForkErr 2 /\ life SNot (proj 0 (r_trace r)) = Some SCrashed.
+Proof. vm_compute. repeat split; reflexivity. Qed.
+
+(* the exact rely condition, computed from the trace alone *)
+Example ex_trace_fresh :
+  trace_fresh (r_trace (fork_processes (0,0)%nat None (Some 1) 8%nat (Some 3) [10; 10; 10] [(10, 9); (10, 256); (10, 0)])) = true /\
+  trace_fresh (r_trace (fork_processes (0,0)%nat None (Some 2) 8%nat None [10; 10] [(10, 0)])) = false.
+Proof. vm_compute. split; reflexivity. Qed.
+
+(* max_restarts None means 100: the 101st abnormal exit fails the supervisor *)
+Example ex_default_budget :
+  let fs := map Z.of_nat (seq 10 120) in
+  let ws k := map (fun i => (Z.of_nat i, 9)) (seq 10 k) in
+  r_out (fork_processes (0,0)%nat None (Some 1) 8%nat None fs (ws 100%nat)) = OWaitErr 0 /\
+  r_out (fork_processes (0,0)%nat None (Some 1) 8%nat None fs (ws 101%nat)) = OTooMany.
 Proof. vm_compute. split; reflexivity. Qed.
